@@ -234,6 +234,15 @@ pub fn eval_amount(
 ) -> Option<Value> {
     let mut v = Value::new();
     for (neg, term) in &a.0 {
+        if let Term::Local(_, inner) = term {
+            // a local is its defining amount
+            let part = eval_amount(p, inner, args, fee, min_utxo)?;
+            for (k, x) in part {
+                let e = v.entry(k).or_insert(0i128);
+                *e = if *neg { e.checked_sub(x)? } else { e.checked_add(x)? };
+            }
+            continue;
+        }
         let (key, amt): (ClassKey, i128) = match term {
             Term::Ada(q) => (None, q_val(q, args)?),
             Term::Tok(i, q) => (p.tokens[*i].key(), q_val(q, args)?),
@@ -244,6 +253,7 @@ pub fn eval_amount(
             Term::Fees => (None, fee?),
             Term::MinUtxo(_) => (None, min_utxo?),
             Term::Input(_) => return None,
+            Term::Local(..) => unreachable!(),
         };
         let e = v.entry(key).or_insert(0i128);
         *e = if *neg { e.checked_sub(amt)? } else { e.checked_add(amt)? };
